@@ -693,6 +693,19 @@ func (s *sched) choose() (g *G, fire bool) {
 	}
 	if len(cands) == 0 {
 		if len(s.timers) > 0 {
+			// a pending sleep, one-shot timer or AfterFunc is bound to wake somebody: ticks that
+			// fall into a full ticker channel meanwhile are not a sign of a dead system (a
+			// goroutine sleeping for seconds next to a millisecond ticker)
+			onlyTickers := true
+			for _, t := range s.timers {
+				if t.kind != tTicker {
+					onlyTickers = false
+					break
+				}
+			}
+			if !onlyTickers {
+				return nil, true
+			}
 			s.idleFires++
 			lim := 2000
 			if s.mainExited {
